@@ -74,6 +74,82 @@ async fn stale_early_handle_does_not_touch_fresh_stream() {
     endpoint.wait_idle().await;
 }
 
+/// Replay body for `e2_quinn_recvstream_stop_0rtt_guard`, `e2_quinn_recvstream_drop_0rtt_guard` and
+/// `e2_quinn_sendstream_drop_0rtt_guard` (C17): after a rejected 0-RTT attempt the next bidirectional stream has
+/// the ID of the rejected early one.  Stopping or dropping the stale early handles must leave that fresh stream
+/// alone: a stale `stop` / `RecvStream::drop` would discard what the peer echoes on it, a stale `SendStream::drop`
+/// would finish it in the middle of the fresh writer's data.
+#[tokio::test]
+async fn stale_early_bi_handles_do_not_touch_fresh_stream() {
+    let _guard = subscribe();
+    let factory = EndpointFactory::new();
+    let endpoint = factory.endpoint();
+    let addr = endpoint.local_addr().unwrap();
+    const EARLY: &[u8] = b"early data that must vanish";
+    const PART1: &[u8] = b"hello, ";
+    const PART2: &[u8] = b"fresh world";
+
+    // first connection: obtain a session ticket
+    let server = {
+        let endpoint = endpoint.clone();
+        tokio::spawn(async move {
+            let connection = endpoint.accept().await.unwrap().await.expect("accept");
+            let mut s = connection.open_uni().await.expect("open_uni");
+            s.write_all(b"one").await.expect("write");
+            let _ = s.finish();
+            connection.closed().await;
+        })
+    };
+    let connection = endpoint.connect(addr, "localhost").unwrap().await.expect("connect");
+    let mut stream = connection.accept_uni().await.expect("incoming streams");
+    assert_eq!(stream.read_to_end(usize::MAX).await.unwrap(), b"one");
+    connection.close(0u32.into(), b"");
+    drop((stream, connection));
+    server.await.unwrap();
+
+    // "restarted" server: same certificate, a TLS configuration that knows no tickets => 0-RTT is rejected
+    let key = PrivateKeyDer::Pkcs8(factory.cert.signing_key.serialize_der().into());
+    let server_config = crate::ServerConfig::with_single_cert(vec![factory.cert.cert.der().clone()], key).unwrap();
+    endpoint.set_server_config(Some(server_config));
+    let server = {
+        let endpoint = endpoint.clone();
+        tokio::spawn(async move {
+            let connection = endpoint.accept().await.unwrap().await.expect("accept");
+            let mut received = Vec::new();
+            while let Ok((mut tx, mut rx)) = connection.accept_bi().await {
+                let data = rx.read_to_end(usize::MAX).await.expect("read_to_end");
+                tx.write_all(&data).await.expect("echo");
+                let _ = tx.finish();
+                received.push(data);
+            }
+            received
+        })
+    };
+
+    let connection = endpoint.connect(addr, "localhost").unwrap().into_0rtt().unwrap_or_else(|_| panic!("missing 0-RTT keys"));
+    let (mut early_tx, early_rx) = connection.open_bi().await.expect("0-RTT open bi");
+    early_tx.write_all(EARLY).await.expect("0-RTT write");
+    connection.authenticated().await.expect("connected");
+    assert_eq!(early_tx.write_all(EARLY).await, Err(WriteError::ZeroRttRejected));
+
+    let (mut fresh_tx, mut fresh_rx) = connection.open_bi().await.expect("1-RTT open bi");
+    assert_eq!(fresh_tx.id(), early_tx.id());
+    fresh_tx.write_all(PART1).await.expect("first write");
+    let mut early_rx = early_rx;
+    let _ = early_rx.stop(VarInt::from_u32(9));
+    drop(early_rx);
+    drop(early_tx);
+    fresh_tx.write_all(PART2).await.expect("the fresh stream was finished when the rejected 0-RTT stream's send handle was dropped");
+    fresh_tx.finish().unwrap();
+    let echoed = timeout(Duration::from_secs(5), fresh_rx.read_to_end(usize::MAX)).await.expect("no echo")
+        .expect("the fresh stream's receive side was stopped through the rejected 0-RTT stream's handle");
+    assert_eq!(echoed, [PART1, PART2].concat());
+    connection.close(0u32.into(), b"");
+    let received = server.await.unwrap();
+    assert_eq!(received, vec![[PART1, PART2].concat()]);
+    endpoint.wait_idle().await;
+}
+
 /// Replay body for `e2_quinn_stopped_wakes_writers` (C11): a writer parked on an exhausted stream window when
 /// the peer's STOP_SENDING arrives is woken and reports the stop code; no credit will ever arrive for it.
 #[tokio::test]
